@@ -4,8 +4,8 @@ import (
 	"fmt"
 	"os"
 	"runtime/pprof"
-	"time"
 	"syscall"
+	"time"
 
 	"go.etcd.io/bbolt/zverif/apix"
 	_ "go.etcd.io/bbolt/zverif/checks"
